@@ -8,7 +8,7 @@
    (the k-th segment runs from (k,0,0) to (k+1,0,0), diameter 1); ion channel "pas", conductance density
    "1 mS_per_cm2" and ids "cd<k>" of the channel densities; the table of property value strings. *)
 From Coq Require Import String List ZArith Bool.
-From LNML Require Import Lib.Dec Model.Gds Model.GdsExec Model.Groups Model.Builder.
+From LNML Require Import Lib.Dec Lib.Regex Model.Gds Model.GdsExec Model.Groups Model.Builder.
 Import ListNotations.
 Open Scope string_scope.
 
@@ -133,6 +133,27 @@ Definition cell_tree (mid bid : string) (c : cell) : obj :=
        ("neuro_lex_id", VNone); ("morphology_attr", VNone); ("biophysical_properties_attr", VNone);
        ("morphology", VObj (morphology_tree mid c)); ("biophysical_properties", VObj (biophys_tree bid c))].
 End Tree.
+
+(* ---------- what the conformance theorem needs of a state besides valid_cell (decidable) ----------
+   segment names printable and parent ids non-negative; neuroLexIds among the four the builder itself uses;
+   the `valid` flag of a property entry truthful (its value index lies in the table of valid strings; a channel density
+   id "cd<k>" is an NmlId); every list shorter than generateDS's "unbounded" (9999999) *)
+Definition nlex_known (o : option string) : bool :=
+  match o with
+  | None => true
+  | Some n => existsb (String.eqb n) [dnlex Soma; dnlex Axon; dnlex Dendrite; section_nlex]
+  end.
+Definition prop_truthful (p : prop) : bool :=
+  match pk p with
+  | ChannelDens => nmlid ("cd" ++ string_of_Z (cd_k (pval p)))
+  | _ => (0 <=? pval p)%Z && (pval p <? 3)%Z
+  end.
+Definition small_b {A : Type} (l : list A) : bool := (Z.of_nat (length l) <=? 9999999)%Z.
+Definition tree_facets (c : cell) : bool :=
+  forallb (fun s => printable (sname s) && match spar s with Some (p, _) => (0 <=? p)%Z | None => true end) (segs c) &&
+  forallb (fun g => nlex_known (nlex g) && small_b (members g) && small_b (includes g)) (groups c) &&
+  forallb prop_truthful (props c) &&
+  small_b (segs c) && small_b (groups c) && small_b (props c).
 
 (* ---------- correspondence: the dumped real cell against cell_tree of the model's finished state ---------- *)
 Definition x_cell_tree := cell_tree XF (fun d => d).
